@@ -271,6 +271,27 @@ class ServerFacts:
                                 skip = True
         return fin, drain, skip
 
+    def dispatcher_refuses_when_not_serving(self):
+        """does `dispatcher` begin (before it registers anything) with
+        `if not <server>.is_serving(): writer.close(); return` ?  A connection accepted while `close()` was on its way
+        is invisible to `close()`; with this guard its dispatcher ends it at once."""
+        node = self.methods["dispatcher"]
+        body = [st for st in node.body if not (isinstance(st, ast.Expr) and isinstance(st.value, ast.Constant))]
+        for st in body[:3]:
+            test = ast.unparse(st.test) if isinstance(st, ast.If) else ""
+            # `not X.is_serving()`, possibly behind `X is not None and` (a server object that was never started)
+            negated = isinstance(st, ast.If) and any(
+                isinstance(x, ast.UnaryOp) and isinstance(x.op, ast.Not) and "is_serving()" in ast.unparse(x.operand) for x in ast.walk(st.test)
+            )
+            if isinstance(st, ast.If) and negated and not any(isinstance(x, ast.BoolOp) and isinstance(x.op, ast.Or) for x in ast.walk(st.test)):
+                text = [ast.unparse(x) for x in st.body]
+                closes = any(t in ("writer.close()", "stream.close()") for t in text)
+                returns = any(isinstance(x, ast.Return) for x in st.body)
+                return bool(closes and returns)
+            if "self.connections[" in ast.unparse(st):
+                return False
+        return False
+
     def passive_start_locked(self):
         """are the test `connection.future.passive_server.done()` and the `_start_passive_server` call of BOTH passive
         handlers (pasv, epsv) inside one `async with` on a per-connection lock created in the dispatcher's
@@ -689,6 +710,8 @@ def gen_server():
     lines.append("def passiveCancelReturnsPort : Bool := %s" % ("true" if F.passive_cancel_returns_port() else "false"))
     lines.append("/-- PASV and EPSV test for an existing listener, start one and record it inside `async with` on a per-connection lock -/")
     lines.append("def passiveStartLocked : Bool := %s" % ("true" if F.passive_start_locked() else "false"))
+    lines.append("/-- `dispatcher` starts with `if not self.server.is_serving(): writer.close(); return` -/")
+    lines.append("def dispatcherRefusesWhenNotServing : Bool := %s" % ("true" if F.dispatcher_refuses_when_not_serving() else "false"))
     _fin, _drain, _skip = F.reply_queue_facts()
     lines.append("/-- `response_writer` marks the reply it took as done in a `finally` (also when the write failed) -/")
     lines.append("def replyWriterFinishesInFinally : Bool := %s" % ("true" if _fin else "false"))
